@@ -167,6 +167,29 @@ rule('X8', 'autocomplete', r"pub struct Autocompletion<'a> \{\n    autocompleted
      'opaque) so that the spec accessors buf()/fin() can be open and the resolution of the mutable borrow '
      '(final == current when the value is dropped) is visible to the calling module; no effect on behaviour')
 
+# ---- writer -----------------------------------------------------------------------------------------
+rule('X7', 'writer', r"impl<W: Write<Error = E>, E: Error> uWrite for Writer<'_, W, E> \{.*?\n\}\n\n", '', 1,
+     'NOT MIRRORED: ufmt::uWrite glue impl (write_str delegates to Writer::write_str)', flags=re.M | re.S)
+rule('X7', 'writer', r"impl<W: Write<Error = E>, E: Error> core::fmt::Write for Writer<'_, W, E> \{.*?\n\}\n\n", '', 1,
+     'NOT MIRRORED: core::fmt::Write glue impl (write_str delegates to Writer::write_str, mapping the error to fmt::Error)',
+     flags=re.M | re.S)
+rule('X7', 'writer', r"impl Write for EmptyWriter \{.*?\n\}\n", '', 1,
+     'NOT MIRRORED: the discarding sink EmptyWriter (its Write impl keeps no history, so the call-log model of the '
+     'sink does not apply to it); nothing in the mirrored code writes to it', flags=re.M | re.S)
+rule('X8', 'writer', r"pub struct Writer<'a, W: Write<Error = E>, E: Error> \{\n    last_bytes: \[u8; 2\],\n    dirty: bool,\n    writer: &'a mut W,\n\}",
+     "pub struct Writer<'a, W: Write<Error = E>, E: Error> {\n    pub last_bytes: [u8; 2],\n    pub dirty: bool,\n    pub writer: &'a mut W,\n}", 1,
+     'visibility only (see X8 for Autocompletion): fields public in the mirror so that the borrow resolution of the '
+     'wrapped sink is visible to cli.rs')
+rule('D3', 'writer', r'text\.as_bytes\(\)\.iter\(\)\.position\(\|&b\| b == codes::LINE_FEED\)',
+     'crate::verif_specs::position_eq(text.as_bytes(), codes::LINE_FEED)', 1,
+     'Iterator::position with an equality predicate == first index holding the value (shim contract)')
+rule('D10', 'writer', r'for _ in 0\.\.longest_name - name\.len\(\) \{', 'for _i in 0..longest_name - name.len() {', 1,
+     'anonymous loop variable named (Verus rejects `_` here)')
+# ---- builder ----------------------------------------------------------------------------------------
+rule('X7', 'builder', r"impl Default\n    for CliBuilder<EmptyWriter, Infallible, \[u8; DEFAULT_CMD_LEN\], \[u8; DEFAULT_HISTORY_LEN\]>\n\{.*?\n\}\n", '', 1,
+     'NOT MIRRORED: Default for CliBuilder (struct literal with EmptyWriter, whose Write impl is not mirrored)',
+     flags=re.M | re.S)
+
 
 def apply(module, src, log):
     for r in RULES:
